@@ -413,3 +413,77 @@ Example C13_ex_backtick_identifier_forms : forall un ua,
   | _ => False
   end.
 Proof. intros. split; vm_compute; reflexivity. Qed.
+
+(* ------------------------------------------------------------------------------------------
+   (d) continued: the text of a Subexpression token (the "blank line"). *)
+From GV Require Import Proofs.C13.LexMaxGen3 Proofs.C13.LexMaxSub.
+
+(* Vocabulary (Proofs.C13.LexMaxSub): blank_ch = space or tab; break_ch = line feed, form
+   feed or carriage return (the ASCII whitespace that is not a blank); sp_head_ch = space,
+   tab or carriage return; lf_ff = line feed or form feed.
+
+   The exact rule.  The text of a Subexpression token is  a ++ m ++ [z]  where
+   * the head a is a single line feed or form feed, or a whitespace run  h b* LF  with h a
+     space, tab or carriage return and b* blanks (spaces/tabs);
+   * m is a run of blanks and z closes the token: if m is empty z is any line-break character
+     (line feed, form feed or carriage return), if m is not empty z is a line feed.
+   So the token is: optional leading blanks (or a carriage return and blanks), a first
+   line-break character, blanks only, a second line-break character -- where the first may
+   be a form feed only at the very start of the token and the second may be a form feed or
+   carriage return only when it follows the first immediately.  It need not contain two line
+   feeds (C13_subexpression_two_line_feeds_refuted).
+   What the next character cannot be: nothing.  The closing character always ends the token
+   and the character after it starts a fresh one, whatever it is -- in particular a third line
+   feed is not absorbed (C13_ex_subexpression_text, first case). *)
+Theorem C13_subexpression_text : forall un ua s ts,
+  lex un ua s = Ok ts ->
+  forall pre t post, ts = pre ++ t :: post -> tok_type t = TT_Subexpression ->
+    exists a m z, tok_text t = a ++ m ++ [z] /\
+      ((exists c0, a = [c0] /\ lf_ff c0 = true) \/
+       (exists h r, a = h :: r ++ [10] /\ sp_head_ch h = true /\ forallb blank_ch r = true)) /\
+      forallb blank_ch m = true /\
+      ((m = [] /\ break_ch z = true) \/ (m <> [] /\ z = 10)).
+Proof. exact lex_subexpression_text. Qed.
+Print Assumptions C13_subexpression_text.
+
+(* Consequences: a Subexpression token consists of ASCII whitespace only, and it contains two
+   line-break characters (line feed / form feed / carriage return), three when it starts
+   with a carriage return. *)
+Theorem C13_subexpression_whitespace : forall un ua s ts,
+  lex un ua s = Ok ts ->
+  forall pre t post, ts = pre ++ t :: post -> tok_type t = TT_Subexpression ->
+    forallb is_ascii_whitespace (tok_text t) = true /\
+    (2 <= length (filter break_ch (tok_text t)) <= 3)%nat.
+Proof. exact lex_subexpression_whitespace. Qed.
+Print Assumptions C13_subexpression_whitespace.
+
+(* "\n\n\n": the third line feed is not part of the Subexpression token (no maximality);
+   "a \n\t \nb": blanks before the first and between the two line feeds stay in the token;
+   "a\r\t\n\x0cb": carriage return + tab + line feed, closed by a form feed;
+   "a\n\r\n\n": LF CR is a Subexpression, so "\n\r\n\n" is two of them *)
+Example C13_ex_subexpression_text : forall un ua,
+  let show s := match lex un ua s with
+                | Ok ts => Some (map (fun t => (tok_text t, tok_type t)) ts)
+                | _ => None
+                end in
+  show [10; 10; 10] = Some [([10; 10], TT_Subexpression); ([10], TT_Whitespace)] /\
+  show [97; 32; 10; 9; 32; 10; 98] =
+    Some [([97], TT_Identifier); ([32; 10; 9; 32; 10], TT_Subexpression); ([98], TT_Identifier)] /\
+  show [97; 13; 9; 10; 12; 98] =
+    Some [([97], TT_Identifier); ([13; 9; 10; 12], TT_Subexpression); ([98], TT_Identifier)] /\
+  show [97; 10; 13; 10; 10] =
+    Some [([97], TT_Identifier); ([10; 13], TT_Subexpression); ([10; 10], TT_Subexpression)].
+Proof. intros. repeat split; vm_compute; reflexivity. Qed.
+
+(* The reading "a Subexpression token contains two line feeds" is false of the lexer: a form
+   feed followed by a carriage return is lexed as one Subexpression token that contains no
+   line feed at all (confirmed on the Rust lexer: lex("\x0c\r") = [Subexpression "\x0c\r"]). *)
+Theorem C13_subexpression_two_line_feeds_refuted : forall un ua,
+  exists s ts t, lex un ua s = Ok ts /\ In t ts /\ tok_type t = TT_Subexpression /\
+                 ~ In 10 (tok_text t).
+Proof.
+  intros un ua. exists [12; 13], [mkTok [12; 13] TT_Subexpression 0 0], (mkTok [12; 13] TT_Subexpression 0 0).
+  split; [vm_compute; reflexivity|]. split; [left; reflexivity|]. split; [reflexivity|].
+  cbn. intros [H|[H|[]]]; discriminate.
+Qed.
+Print Assumptions C13_subexpression_two_line_feeds_refuted.
